@@ -75,6 +75,12 @@ func runC03(c *core.Ctx) {
 		return
 	}
 	d.S.DropW, d.S.DupW, d.S.ReorderW, d.S.AdvanceW = k.dropW, k.dupW, k.reorderW, k.advW
+	if c.T.Bias(1, 5, "high-signalled-priorities") {
+		// candidate priorities as signalled lie in the upper half of the 32-bit field (an unusual peer; the
+		// field is 32 bits wide and the pair formula is defined for all of it)
+		d.SignalPrioOffset = 1 << 31
+		c.Fault("signalled-priorities-above-2^31")
+	}
 	for _, ag := range []*rig.AgentH{d.A, d.B} {
 		if err := d.Gather(ag); err != nil {
 			c.Failf("harness/gather", "%v", err)
